@@ -4,8 +4,8 @@
    ids), fanoutForward's response loop with early return, canReturnEarly.
    writeQuorum, the failureThreshold expression, the skeleton of canReturnEarly
    and the decisions of the response loop (in source order) are regenerated from
-   the Go source on every run (Gen/C22.v); the hand model is claimed for that
-   shape only (undefined otherwise). Executable definitions only. *)
+   the Go source on every run (Gen/C22.v); that the source still has the
+   modelled shape is the theorem C22_source_shape. Executable definitions only. *)
 From Coq Require Import ZArith List Bool Lia String.
 Import ListNotations.
 From Verif Require Import Lib.Corr Gen.C22.
@@ -70,8 +70,11 @@ Fixpoint loop (q ft : Z) (st : list sst) (rs : list resp) : fo_result :=
       if can_return_early q ft st' then finish ft st' else loop q ft st' rs'
   end.
 
+(* (the model is not switched off when the source's shape changes, so that the
+   correspondence check keeps localising a behavioural difference;
+   [shape_ok = true] is the theorem C22_source_shape) *)
 Definition fanout (n : nat) (q ft : Z) (rs : list resp) : option fo_result :=
-  if shape_ok then Some (loop q ft (repeat sst0 n) rs) else None.
+  Some (loop q ft (repeat sst0 n) rs).
 
 (* ---- whole request ---- *)
 Definition placed (place : list (list nat)) (s r : nat) : nat := nth r (nth s place []) 0%nat.
@@ -98,6 +101,165 @@ Definition handle (rf rep : Z) (place : list (list nat)) (ws : list write) : opt
     | None => None
     end.
 
+(* ---- distributeTimeseriesToReplicas ----
+   for every series (in request order) and every replica number of the request
+   the series id is appended to the group of (hashring node, replica); the Go
+   map of groups is modelled by an association list in order of first use *)
+Definition dest := (nat * nat)%type.             (* node, replica *)
+Definition dest_eqb (a b : dest) : bool := Nat.eqb (fst a) (fst b) && Nat.eqb (snd a) (snd b).
+
+Fixpoint add_to_group (d : dest) (s : nat) (gs : list (dest * list nat)) : list (dest * list nat) :=
+  match gs with
+  | [] => [(d, [s])]
+  | (d', ids) :: r => if dest_eqb d' d then (d', ids ++ [s]) :: r else (d', ids) :: add_to_group d s r
+  end.
+
+(* forward: replicas = [r.n] for an already replicated request, else 0 .. rf-1 *)
+Definition replicas_of (rf rep : Z) : list nat :=
+  if rep =? 0 then seq 0 (Z.to_nat rf) else [Z.to_nat (rep - 1)].
+
+(* the (destination, series id) insertions of the two nested loops, in order *)
+Definition insertions (place : list (list nat)) (replicas : list nat) : list (dest * nat) :=
+  flat_map (fun s => map (fun r => ((placed place s r, r), s)) replicas) (seq 0 (List.length place)).
+
+Definition distribute (place : list (list nat)) (replicas : list nat) : list (dest * list nat) :=
+  fold_left (fun gs x => add_to_group (fst x) (snd x) gs) (insertions place replicas) [].
+
+Fixpoint group_ids (gs : list (dest * list nat)) (d : dest) : option (list nat) :=
+  match gs with
+  | [] => None
+  | (d', ids) :: r => if dest_eqb d' d then Some ids else group_ids r d
+  end.
+
+(* ---- sendWrites and the response channel ----
+   LTS of the goroutine `sendWrites; wg.Wait; close(responses)` and of the
+   peers' pool workers, over the destinations of one request. First pass per
+   destination: wg.Add(1); tryWrite: connection error => response + wg.Done |
+   pool accepts => a worker will later send the response, then run cb =>
+   wg.Done | pool full => wg.Done, deferred. Second pass per deferred
+   destination: wg.Add(1); sendWrite: connection error | submission fails
+   (context done) => response + wg.Done | accepted. Then wg.Wait and close.
+   The order of these bookkeeping calls in the source is checked by
+   [send_shape_ok] (Gen/C22.v). *)
+Inductive sphase := P1 (todo : list dest) | P2 (todo : list dest) | PWait | PClosed.
+
+Record sstate := mk_sstate {
+  sph : sphase;
+  sdeferred : list dest;   (* rejected by the first pass *)
+  swg : Z;                 (* WaitGroup counter *)
+  srunning : list dest;    (* accepted by a pool, response not yet sent *)
+  ssent : list dest;       (* response sent by a worker, cb (wg.Done) not yet run *)
+  schan : list dest;       (* responses put on the channel, in order *)
+  sbad : bool }.           (* send on closed channel / negative WaitGroup counter *)
+
+Definition sinit (ds : list dest) : sstate := mk_sstate (P1 ds) [] 0 [] [] [] false.
+
+Inductive slabel :=
+| S1ConnFail | S1Accept | S1Reject | S1End
+| S2ConnFail | S2GoErr | S2Accept | S2End
+| SWorkSend (d : dest) | SWorkDone (d : dest)
+| SClose.
+
+Fixpoint remove_one (d : dest) (l : list dest) : option (list dest) :=
+  match l with
+  | [] => None
+  | x :: r => if dest_eqb x d then Some r
+              else match remove_one d r with Some r' => Some (x :: r') | None => None end
+  end.
+
+Definition is_closed (p : sphase) : bool := match p with PClosed => true | _ => false end.
+
+Definition sstep (s : sstate) (l : slabel) : option sstate :=
+  match l, sph s with
+  | S1ConnFail, P1 (d :: t) =>   (* wg.Add(1); response sent by prepareRemoteWrite; wg.Done *)
+      Some (mk_sstate (P1 t) (sdeferred s) (swg s) (srunning s) (ssent s) (schan s ++ [d]) (sbad s))
+  | S1Accept, P1 (d :: t) =>
+      Some (mk_sstate (P1 t) (sdeferred s) (swg s + 1) (d :: srunning s) (ssent s) (schan s) (sbad s))
+  | S1Reject, P1 (d :: t) =>     (* wg.Add(1); TryGo = false; wg.Done; deferred *)
+      Some (mk_sstate (P1 t) (sdeferred s ++ [d]) (swg s) (srunning s) (ssent s) (schan s) (sbad s))
+  | S1End, P1 [] =>
+      Some (mk_sstate (P2 (sdeferred s)) [] (swg s) (srunning s) (ssent s) (schan s) (sbad s))
+  | S2ConnFail, P2 (d :: t) | S2GoErr, P2 (d :: t) =>
+      Some (mk_sstate (P2 t) (sdeferred s) (swg s) (srunning s) (ssent s) (schan s ++ [d]) (sbad s))
+  | S2Accept, P2 (d :: t) =>
+      Some (mk_sstate (P2 t) (sdeferred s) (swg s + 1) (d :: srunning s) (ssent s) (schan s) (sbad s))
+  | S2End, P2 [] =>
+      Some (mk_sstate PWait (sdeferred s) (swg s) (srunning s) (ssent s) (schan s) (sbad s))
+  | SWorkSend d, ph =>
+      match remove_one d (srunning s) with
+      | Some r' => Some (mk_sstate ph (sdeferred s) (swg s) r' (d :: ssent s) (schan s ++ [d]) (sbad s || is_closed ph))
+      | None => None
+      end
+  | SWorkDone d, ph =>
+      match remove_one d (ssent s) with
+      | Some t' => Some (mk_sstate ph (sdeferred s) (swg s - 1) (srunning s) t' (schan s) (sbad s || (swg s - 1 <? 0)))
+      | None => None
+      end
+  | SClose, PWait =>
+      if swg s =? 0 then Some (mk_sstate PClosed (sdeferred s) (swg s) (srunning s) (ssent s) (schan s) (sbad s)) else None
+  | _, _ => None
+  end.
+
+Fixpoint srun (s : sstate) (ls : list slabel) : option sstate :=
+  match ls with
+  | [] => Some s
+  | l :: r => match sstep s l with Some s' => srun s' r | None => None end
+  end.
+
+Definition expected_sendWrites : list (string * string) :=
+  [("for", ""); ("call", "wg.Add"); ("call", "h.tryWrite");
+   ("if", "!h.tryWrite(ctx, writes[writeDestination], writeDestination, params.alreadyReplicated, responses, wg)");
+   ("call", "wg.Done"); ("endif", ""); ("endfor", "");
+   ("for", ""); ("call", "wg.Add"); ("call", "h.sendWrite"); ("endfor", "")]%string.
+Definition expected_tryWrite : list (string * string) :=
+  [("for", ""); ("endfor", ""); ("for", ""); ("endfor", ""); ("call", "h.prepareRemoteWrite");
+   ("if", "cl == nil"); ("return", "true"); ("endif", ""); ("call", "cl.TryRemoteWriteAsync"); ("return", "<try result>")]%string.
+Definition expected_sendWrite : list (string * string) :=
+  [("for", ""); ("endfor", ""); ("for", ""); ("endfor", ""); ("call", "h.prepareRemoteWrite");
+   ("if", "cl == nil"); ("return", ""); ("endif", ""); ("call", "cl.RemoteWriteAsync")]%string.
+(* prepareRemoteWrite: only the connection-error branch and the callback's final wg.Done matter *)
+Definition expected_prepare_prefix : list (string * string) :=
+  [("call", "h.peers.getConnection"); ("if", "err != nil"); ("if", "<other>"); ("endif", "");
+   ("call", "newWriteResponse"); ("call", "wg.Done"); ("return", "nil, nil, nil"); ("endif", "")]%string.
+Definition expected_prepare_suffix : list (string * string) :=
+  [("call", "wg.Done"); ("endfunclit", ""); ("return", "<value>")]%string.
+Definition expected_buildWork_core : list (string * string) :=
+  [("call", "p.client.RemoteWrite"); ("call", "newWriteResponse"); ("if", "err != nil"); ("endif", ""); ("call", "cb")]%string.
+Definition expected_remoteWriteAsync : list (string * string) :=
+  [("call", "p.buildWork"); ("call", "p.wp.Go"); ("if", "err != nil"); ("funclit", "");
+   ("call", "newWriteResponse"); ("call", "cb"); ("endfunclit", ""); ("endif", "")]%string.
+Definition expected_tryRemoteWriteAsync : list (string * string) :=
+  [("call", "p.buildWork"); ("call", "p.wp.TryGo"); ("return", "<try result>")]%string.
+Definition expected_fanout_sender : list (string * string) :=
+  [("call", "h.sendWrites"); ("call", "wg.Wait"); ("call", "close")]%string.
+
+Definition evl_eqb := list_eqb string_pair_eqb.
+Fixpoint is_prefix (p l : list (string * string)) : bool :=
+  match p, l with
+  | [], _ => true
+  | x :: p', y :: l' => string_pair_eqb x y && is_prefix p' l'
+  | _, [] => false
+  end.
+Fixpoint is_infix (p l : list (string * string)) : bool :=
+  is_prefix p l || match l with [] => false | _ :: l' => is_infix p l' end.
+Definition count_calls (name : string) (l : list (string * string)) : nat :=
+  List.length (filter (fun e => String.eqb (snd e) name) l).
+
+Definition send_shape_ok : bool :=
+  evl_eqb sendWrites_protocol expected_sendWrites
+  && evl_eqb tryWrite_protocol expected_tryWrite
+  && evl_eqb sendWrite_protocol expected_sendWrite
+  && is_prefix expected_prepare_prefix prepareRemoteWrite_protocol
+  && is_prefix (rev expected_prepare_suffix) (rev prepareRemoteWrite_protocol)
+  && Nat.eqb (count_calls "wg.Done" prepareRemoteWrite_protocol) 2
+  && Nat.eqb (count_calls "newWriteResponse" prepareRemoteWrite_protocol) 1
+  && is_infix expected_buildWork_core buildWork_protocol
+  && Nat.eqb (count_calls "cb" buildWork_protocol) 1
+  && Nat.eqb (count_calls "newWriteResponse" buildWork_protocol) 1
+  && evl_eqb remoteWriteAsync_protocol expected_remoteWriteAsync
+  && evl_eqb tryRemoteWriteAsync_protocol expected_tryRemoteWriteAsync
+  && evl_eqb fanout_sender_protocol expected_fanout_sender.
+
 (* ---- specification vocabulary ---- *)
 (* outcomes series s received, in arrival order *)
 Definition kinds_for (s : nat) (rs : list resp) : list okind :=
@@ -119,25 +281,40 @@ Definition quorum_everywhere (n : nat) (q : Z) (rs : list resp) : bool :=
 (* ---- correspondence and predicate ---- *)
 Inductive case :=
 | CAck (rf rep : Z) (place : list (list nat)) (ws : list write)
-       (obs_ids : list (list nat)) (status : Z) (delivered : nat).
+       (obs_ids : list (list nat)) (obs_responses : list nat) (status : Z) (delivered : nat).
 
 Definition outcome_of_status (st : Z) : outcome :=
   if st =? 200 then OAck else if st =? 400 then OBadReplica else OFail.
 Definition outcome_eqb (a b : outcome) : bool :=
   match a, b with OAck, OAck | OFail, OFail | OBadReplica, OBadReplica => true | _, _ => false end.
 
+Definition write_dest (w : write) : dest := fst w.
+
+(* the writes that produced responses are exactly the model's groups (as a set:
+   the Go map has no order), each carries the group's series ids, and each
+   produced exactly one response *)
+Definition dests_match (gs : list (dest * list nat)) (ws : list write) : bool :=
+  Nat.eqb (List.length gs) (List.length ws)
+  && forallb (fun g => existsb (fun w => dest_eqb (write_dest w) (fst g)) ws) gs
+  && forallb (fun w => existsb (fun g => dest_eqb (write_dest w) (fst g)) gs) ws.
+
 Definition corr_ok (c : case) : bool :=
   match c with
-  | CAck rf rep place ws obs_ids status delivered =>
+  | CAck rf rep place ws obs_ids obs_responses status delivered =>
       option_eqb outcome_eqb (handle rf rep place ws) (Some (outcome_of_status status))
-      && ((rep >? rf) || list_eqb (list_eqb Nat.eqb) (map fst (resps_of place ws)) obs_ids)
+      && ((rep >? rf) ||
+          (let gs := distribute place (replicas_of rf rep) in
+           dests_match gs ws
+           && list_eqb (option_eqb (list_eqb Nat.eqb)) (map (fun w => group_ids gs (write_dest w)) ws) (map Some obs_ids)
+           && list_eqb (list_eqb Nat.eqb) (map fst (resps_of place ws)) obs_ids
+           && forallb (Nat.eqb 1) obs_responses))
   end.
 
 (* acknowledged => every series was stored by >= quorum replicas among the
    responses that had been delivered when the handler returned *)
 Definition pred_ok (c : case) : bool :=
   match c with
-  | CAck rf rep place ws obs_ids status delivered =>
+  | CAck rf rep place ws obs_ids obs_responses status delivered =>
       if (status =? 200) && negb (rep >? rf) then
         quorum_everywhere (List.length place) (spec_threshold rf rep) (firstn delivered (resps_of place ws))
       else true
